@@ -30,7 +30,7 @@ TYPED = {'transactions': data.Transaction, 'prices': data.Price, 'balances': dat
          'events': data.Event, 'documents': data.Document}
 RENAMES = {'balances': {'discrepancy': 'diff_amount'}, 'commodities': {'name': 'currency'}}
 _OTHER = []
-META_PROBES = ['ref', 'note', 'when', 'amt', 'flagged', 'k1', 'filename', 'lineno', 'missing', 'name']
+META_PROBES = ['ref', 'note', 'when', 'amt', 'flagged', 'k1', 'checkNo', 'checkno', 'inv-id', 'REF', 'filename', 'lineno', 'missing', 'name']
 
 
 @st.composite
